@@ -14,6 +14,19 @@
         pvspread <n> <ammount_spread> ; <p...> ; <s...>   out: ok <v...>        (calc_pv_spread skeleton)
         normalise ; <v...>                out: ok <v...>                        (panning_values_for_weight, last line)
         safenorm ; <v...>                 out: ok <v...>                        (allo_extent.get_gains safe_norm)
+        extmod <extent> <distance>        out: ok <extent'>                     (PolarExtentHandler.extent_mod)
+        phandle <x> <y> <z> <width> <height> <depth> ; <pv> [; <pv>]
+                                          out: ok <w1> <h1> [<w2> <h2>] | <gains...>   (handle: the calc_pv_spread arguments per end
+                                                                                 distance, and the combination of the given results)
+        divpos <cart 0/1> <x> <y> <z> <value|none> <azimuthRange|none> <positionRange|none> <v2 0/1>
+                                          out: ok <x y z> , <x y z> ...         (diverge, positions only)
+        full <P|C> <n> ; <a> <b> <c> ; <offset a b c | none> ; <value|none> <azimuthRange|none> <positionRange|none> <v2 0/1> ;
+             <bg> <og> <mute 0/1> <diffuse> ; <lfe mask> ; <D rows | excluded mask> ; <in xyz> <out xyz> (screen scale) ;
+             <in xyz> <out xyz> (edge lock) ; <in xyz> <out xyz> (channel lock) ; <pos xyz> <gains...> , ... (extent pan calls)
+                                          out: ok <direct...> | <diffuse...>  |  rejected (positionOffset leaves the range)
+                                               | miss (a recorded call is not where the pipeline of the model puts it)
+        alloext <p> <mu> <s_eff> ; <ch> , <ch> ...    (a channel = fx fy fz bLeft bRight bFront bBack bCeil bFloor gPoint)
+                                          out: ok <gains...>                    (allo_extent.get_gains after the weights)
         allo <n> <x> <y> <z> ; <plane> , <plane> ...     (rows of a plane separated by `/`, a leaf = <idx> <x> <y> <z>)
                                           out: ok <gains...>  |  assert          (AllocentricPanner.handle)
    `bad-op` for a malformed line. -/
@@ -69,12 +82,106 @@ def answerRender (kind : String) (secs : List String) : String :=
     | _, _, _, _, _, _ => "bad-op"
   | _ => "bad-op"
 
+
+def showV3 (p : V3 Float) : String := showFs [p.1, p.2.1, p.2.2]
+
+def parseOpt (s : String) : Option (Option Float) := if s == "none" then some none else (parseF s).map some
+
+def nearF (a b : Float) : Bool := (a - b).abs <= 1e-9
+def nearV (a b : V3 Float) : Bool := nearF a.1 b.1 && nearF a.2.1 b.2.1 && nearF a.2.2 b.2.2
+def nanV : V3 Float := (0.0 / 0.0, 0.0 / 0.0, 0.0 / 0.0)
+
+/-- a recorded call as an oracle: answers only at (within 1e-9 of) the recorded argument -/
+def tableV (tab : List (V3 Float × V3 Float)) (p : V3 Float) : V3 Float :=
+  match tab.find? (fun e => nearV e.1 p) with
+  | some e => e.2
+  | none => nanV
+
+def dist2 (a b : V3 Float) : Float :=
+  (a.1 - b.1) * (a.1 - b.1) + (a.2.1 - b.2.1) * (a.2.1 - b.2.1) + (a.2.2 - b.2.2) * (a.2.2 - b.2.2)
+
+/-- the recorded extent-pan calls as an oracle: the nearest recorded argument, if within 1e-9 -/
+def tableG (tab : List (V3 Float × List Float)) (p : V3 Float) : List Float :=
+  let best := tab.foldl (fun (acc : Option (V3 Float × List Float)) e =>
+    match acc with
+    | none => some e
+    | some b => if dist2 e.1 p < dist2 b.1 p then some e else some b) none
+  match best with
+  | some e => if nearV e.1 p then e.2 else []
+  | none => []
+
+def parseIO (s : String) : Option (V3 Float × V3 Float) :=
+  match parseFs s with
+  | some [a, b, c, d, e, f] => some ((a, b, c), (d, e, f))
+  | _ => none
+
+def parseCall (s : String) : Option (V3 Float × List Float) :=
+  match parseFs s with
+  | some (a :: b :: c :: g) => some ((a, b, c), g)
+  | _ => none
+
+def answerFull (kind : String) (secs : List String) : String :=
+  match secs with
+  | [n, coords, off, dv, gains, lfe, z, ss, el, cl, ext] =>
+    let offset : Option (Option (V3 Float)) :=
+      if words off == ["none"] then some none
+      else match parseFs off with
+        | some [a, b, c] => some (some (a, b, c))
+        | _ => none
+    let dvp : Option (Option Float × Option Float × Option Float × Bool) :=
+      match words dv with
+      | [v, ar, pr, v2] =>
+        match parseOpt v, parseOpt ar, parseOpt pr with
+        | some v, some ar, some pr => if v2 == "0" then some (v, ar, pr, false) else if v2 == "1" then some (v, ar, pr, true) else none
+        | _, _, _ => none
+      | _ => none
+    let path : Option (ZonePath Float) :=
+      if kind == "P" then (parseRows z).map .polar else if kind == "C" then (parseMask z).map .cartesian else none
+    match parseNats n, parseFs coords, offset, dvp, parseFs gains, parseMask lfe, path, parseIO ss, parseIO el, parseIO cl,
+        (ext.splitOn ",").mapM parseCall with
+    | some [n], some [a, b, c], some offset, some (v, ar, pr, v2), some [bg, og, mute, diffuse], some lfe, some path,
+        some ss, some el, some cl, some ext =>
+      if !(mute == 0.0 || mute == 1.0) then "bad-op" else
+      let o : Oracles Float := ⟨tableV [ss], tableV [el], tableV [cl], tableG ext⟩
+      let blk : Block Float := ⟨kind == "C", (a, b, c), offset, v, ar, pr, v2, bg, diffuse, og, mute == 1.0⟩
+      -- the shapes on which numpy would raise also signal a missed lookup (an empty gain vector)
+      match applyOffset blk.cartesian blk.coords blk.offset with
+      | none => "rejected"
+      | some c0 =>
+        let pos := o.channelLock (o.edgeLock (o.screenScale (coordTrans blk.cartesian c0)))
+        let ps := divergePositions blk.cartesian pos v ar pr v2
+        let g := ps.map o.extentPan
+        if pos.1.isNaN || !shapesOk n path (divergeGains v) g lfe then "miss" else
+        match renderFull n o path lfe blk with
+        | some r => showPair r
+        | none => "rejected"
+    | _, _, _, _, _, _, _, _, _, _, _ => "bad-op"
+  | _ => "bad-op"
+
 def answer (line : String) : String :=
   match line.splitOn ";" with
   | [] => "bad-op"
   | hd :: secs =>
     match words hd, secs with
     | ["render", kind], _ => answerRender kind secs
+    | ["full", kind], _ => answerFull kind secs
+    | ["extmod", e, d], [] =>
+      match parseF e, parseF d with
+      | some e, some d => s!"ok {showF (extentMod e d)}"
+      | _, _ => "bad-op"
+    | ["phandle", x, y, z, w, h, d], pvs =>
+      match [x, y, z, w, h, d].mapM parseF, pvs.mapM parseFs with
+      | some [x, y, z, w, h, d], some pvs =>
+        let ex := polarExtents (norm3 (x, y, z)) w h d
+        if ex.length != pvs.length then "bad-shape" else
+        s!"ok {showFs (ex.flatMap fun e => [e.1, e.2])} | {showFs (polarCombine pvs)}"
+      | _, _ => "bad-op"
+    | ["divpos", c, x, y, z, v, ar, pr, v2], [] =>
+      match [x, y, z].mapM parseF, parseOpt v, parseOpt ar, parseOpt pr with
+      | some [x, y, z], some v, some ar, some pr =>
+        if !(c == "0" || c == "1") || !(v2 == "0" || v2 == "1") then "bad-op" else
+        "ok " ++ String.intercalate " , " ((divergePositions (c == "1") (x, y, z) v ar pr (v2 == "1")).map showV3)
+      | _, _, _, _ => "bad-op"
     | ["div", "none"], [] => s!"ok {showFs (divergeGains (none : Option Float))}"
     | ["div", v], [] =>
       match parseF v with
@@ -113,6 +220,14 @@ def answer (line : String) : String :=
       match parseFs v with
       | some v => s!"ok {showFs (safeNorm v)}"
       | none => "bad-op"
+    | ["alloext", p, mu, se], [chs] =>
+      let parseCh (s : String) : Option (ExtCh Float) :=
+        match parseFs s with
+        | some [a, b, c, d, e, f, g, h, i, j] => some ⟨a, b, c, d, e, f, g, h, i, j⟩
+        | _ => none
+      match parseF p, parseF mu, parseF se, (chs.splitOn ",").mapM parseCh with
+      | some p, some mu, some se, some chs => s!"ok {showFs (alloExtentSkeleton p mu se chs)}"
+      | _, _, _, _ => "bad-op"
     | ["allo", n, x, y, z], [tree] =>
       match n.toNat?, parseF x, parseF y, parseF z, parseTree tree with
       | some n, some x, some y, some z, some st =>
